@@ -335,8 +335,8 @@ impl SendRateComp {
                         self.send_rate = (self.send_rate/2).max(MINIMUM_RATE);
                     }
                 } else {
-                    // In slow start, but no feedback has been received.
-                    debug_assert!(self.nofeedback_idle == false);
+                    // In slow start, but no feedback has been received. (The sender may well have been
+                    // idle since the previous expiry.)
 
                     // Halve send rate every RTO, subject to minimum
                     self.send_rate = (self.send_rate/2).max(MINIMUM_RATE);
